@@ -68,6 +68,11 @@ PROGRAMS = {
                             pre=[['redo-ifchange', 'top'], ('edit', 'src', 'v1c\n')], cmd=['redo-ifchange', 'top'], tops=['top'],
                             oracle=lambda s: {'alw': 'alw(%s)\n' % s['src'].rstrip('\n'), 'watch': 'watch(%s)\n' % s['src'].rstrip('\n'),
                                               'top': 'alw(%s)\nwatch(%s)\n' % (s['src'].rstrip('\n'), s['src'].rstrip('\n'))}),
+    # the user had replaced a generated target by hand (noticed by a build), then removed it again: redo owns it once more
+    'override-then-removed': dict(files={'mid.do': MID, 'top.do': TOP, 'src': 'v1\n'},
+                                  pre=[['redo-ifchange', 'top'], ('edit', 'mid', 'made by hand\n'), ['redo-ifchange', 'top'], ('rm', 'mid'), ('edit', 'src', 'v1c\n')],
+                                  cmd=['redo-ifchange', 'top'], tops=['top'],
+                                  oracle=lambda s: {'mid': 'mid(%s)\n' % s['src'].rstrip('\n'), 'top': 'top(mid(%s))\n' % s['src'].rstrip('\n')}),
     'existing-db-new-target': dict(files={'mid.do': MID, 'top.do': TOP, 'src': 'v1\n', 'other.do': 'echo other > $3\n'}, pre=[['redo-ifchange', 'other']],
                                    cmd=['redo-ifchange', 'top'], tops=['top'],
                                    oracle=lambda s: {'mid': 'mid(%s)\n' % s['src'].rstrip('\n'), 'top': 'top(mid(%s))\n' % s['src'].rstrip('\n')}),
@@ -99,7 +104,9 @@ def path_class(p, top):
 
 def prepare(pj, prog, clock):
     for act in prog['pre']:
-        if isinstance(act, tuple):
+        if isinstance(act, tuple) and act[0] == 'rm':
+            os.unlink(os.path.join(pj.top, act[1]))
+        elif isinstance(act, tuple):
             common.write_file(os.path.join(pj.top, act[1]), act[2])
             clock[0] += 10 ** 9
             os.utime(os.path.join(pj.top, act[1]), ns=(clock[0], clock[0]))
@@ -448,7 +455,7 @@ def dispatch(item):
     return crash_case(item)
 
 
-RULE = ('for each of 12 small programs (first builds and rebuilds of a chain, with and without a checksummed target, scripts writing to stdout, a script that appends to $3 around a nested redo-ifchange, scripts calling redo-always and redo-ifcreate, a diamond under a '
+RULE = ('for each of 13 small programs (first builds and rebuilds of a chain, a target the user had overridden and then removed again, with and without a checksummed target, scripts writing to stdout, a script that appends to $3 around a nested redo-ifchange, scripts calling redo-always and redo-ifcreate, a diamond under a '
         'default rule, a 6-leaf fan at -j3, a build with a failing node, a first target in an existing database) an LD_PRELOAD shim counts the '
         'state-changing libc calls (rename, unlink, create/truncating open, write/pwrite to regular files incl. the SQLite database, WAL and '
         'log files, ftruncate, mkdir) of all redo processes and SIGKILLs the calling process (mode self) or its whole process group (mode group) '
@@ -466,7 +473,7 @@ def main(tier):
     common.ensure_built()
     col = Collector(PROP, tier, 'fault_enumeration', RULE, ASSUME, floor=20)
     rnd = random.Random(common.seed())
-    names = ['chain-first', 'chain-stamp-rebuild', 'chain-rebuild', 'diamond-default', 'append-rebuild', 'stdout-chain'] if quick else list(PROGRAMS)
+    names = ['chain-first', 'chain-stamp-rebuild', 'chain-rebuild', 'diamond-default', 'append-rebuild', 'stdout-chain', 'override-then-removed'] if quick else list(PROGRAMS)
     items = []
     counts = {}
     for n in names:
